@@ -34,7 +34,7 @@ fn main() {
             let args = parse_args(&argv[2..]);
             let cases = if args.mode == "replay" { read_cases_from_stdin() } else { generate::generate(&args) };
             run_cases(&|| world::SvcComp::new(), &cases);
-            world::cleanup_prefix(&format!("vs{}_", std::process::id()));
+            world::cleanup_prefix(&format!("vs{}_", std::process::id()), false);
             let _ = std::fs::remove_dir_all(world::root_dir());
         }
         "syscalls" => conc::syscalls(&argv[2..]),
